@@ -54,7 +54,7 @@ class WcPeer(SimPeer):
         return out
 
 
-def async_session(n_cmds, rng, snapshot="/repo/tests/snapshots/default.snapshot"):
+def async_session(n_cmds, rng, snapshot="/repo/tests/snapshots/default.snapshot", lossy=False):
     from geckolib import GeckoAsyncSpaMan
 
     class Man(GeckoAsyncSpaMan):
@@ -66,6 +66,18 @@ def async_session(n_cmds, rng, snapshot="/repo/tests/snapshots/default.snapshot"
 
     peer = WcPeer(snapshot)
     net = Network([peer])
+    if lossy:
+        # some answers to commands and queries are lost once the connection is up: every retry of the engine
+        # draws a new number, and the other cycle must not be disturbed by it
+        lrng = env.rng(f"c16-loss-{rng.random()}")
+        state = {"on": False}
+
+        def s2c(data, now, n):
+            c = inner(data) or b""
+            if state["on"] and c[:5] in (b"PACKS", b"WCGET", b"RMREQ", b"WCSET") and lrng.random() < 0.4:
+                return []
+            return None
+        net.s2c = s2c
     with World(net) as w:
         async def main():
             async with Man() as m:
@@ -77,6 +89,8 @@ def async_session(n_cmds, rng, snapshot="/repo/tests/snapshots/default.snapshot"
                     raise env.MachineryError("async session: facade did not come up against the simulator")
                 f = m.facade
                 spa = f.spa
+                if lossy:
+                    state["on"] = True
                 for i in range(n_cmds):
                     k = rng.randrange(7)
                     if k == 6:
@@ -102,52 +116,45 @@ def async_session(n_cmds, rng, snapshot="/repo/tests/snapshots/default.snapshot"
 
 
 def threaded_session(n_cmds, rng, snapshot="/repo/tests/snapshots/default.snapshot"):
-    from geckolib.spa import GeckoSpa
-    from geckolib.automation.facade import GeckoFacade
-
-    peer = WcPeer(snapshot)
-    with W2() as w2:
-        spa = GeckoSpa(Descriptor())
-        sock = MockSock(w2.clock)
-        spa._socket = sock
+    """the blocking client with its ping thread running (cooperatively, virtual time): commands, a period in
+    which the spa answers no ping for longer than the not-responding timeout, commands again"""
+    from ..sessions import ThreadedSession
+    from geckolib.config import GeckoConfig
+    with ThreadedSession(peer=WcPeer(snapshot)) as s:
         with contextlib.redirect_stdout(io.StringIO()):
-            facade = GeckoFacade(spa)
-            spa.start_connect()
-            seen = 0
-
-            def pump(iters):
-                nonlocal seen
-                for _ in range(iters):
-                    w2.advance(0.03)
-                    W2.step(spa)
-                    while seen < len(sock.wire):
-                        _, data, dest = sock.wire[seen]
-                        seen += 1
-                        for reply, _d in peer.on_datagram(data, ("10.0.0.2", 40001)):
-                            sock.inbox.append((reply, peer.addr))
-
-            pump(400)
-            if not facade.is_connected:
+            if not s.wait_connected(600):
                 raise env.MachineryError("threaded session: handshake did not complete against the simulator")
-            for i in range(n_cmds):
-                k = rng.randrange(7)
-                if k == 6:
-                    facade.water_care.set_mode(rng.randrange(5))
-                elif k == 0:
-                    spa.press(rng.choice([1, 2, 16, 21]))
-                elif k == 1 and facade.pumps:
-                    p = rng.choice(facade.pumps)
-                    p.set_mode(rng.choice(p.modes))
-                elif k == 2:
-                    facade.water_heater.set_target_temperature(rng.choice([30, 35.5, 38]))
-                elif k == 3:
-                    facade.water_care.update()
-                elif k == 4:
-                    facade._reminders.update()
-                else:
-                    spa.refresh()
-                pump(40)
-        return [wire_history(d for (_, d, _) in sock.wire)]
+            spa, facade = s.spa, s.facade
+
+            def commands(n):
+                for i in range(n):
+                    k = rng.randrange(7)
+                    if k == 6:
+                        facade.water_care.set_mode(rng.randrange(5))
+                    elif k == 0:
+                        spa.press(rng.choice([1, 2, 16, 21]))
+                    elif k == 1 and facade.pumps:
+                        p = rng.choice(facade.pumps)
+                        p.set_mode(rng.choice(p.modes))
+                    elif k == 2:
+                        facade.water_heater.set_target_temperature(rng.choice([30, 35.5, 38]))
+                    elif k == 3:
+                        facade.water_care.update()
+                    elif k == 4:
+                        facade._reminders.update()
+                    else:
+                        spa.refresh()
+                    s.pump(40)
+
+            commands(n_cmds // 2)
+            # the spa stops answering pings (everything else still works) for longer than the timeout
+            silent = GeckoConfig.PING_DEVICE_NOT_RESPONDING_TIMEOUT_IN_SECONDS + 2 * GeckoConfig.PING_FREQUENCY_IN_SECONDS + 5
+            s.drop = lambda data, direction: direction == "c2s" and (inner(data) or b"").startswith(b"APING")
+            s.pump(int(silent / 0.05), dt=0.05)          # (the engine thread's own cadence)
+            s.drop = None
+            s.pump(int((GeckoConfig.PING_FREQUENCY_IN_SECONDS + 5) / 0.05), dt=0.05)
+            commands(n_cmds - n_cmds // 2)
+        return [wire_history(s.wire())]
 
 
 def run(ctx):
@@ -156,6 +163,8 @@ def run(ctx):
     n = 150 if ctx.quick else 600
     logs = []
     for h in async_session(n, rng):
+        logs.append({"client": "async", "thr": [h], "n": len(h)})
+    for h in async_session(n // 3, rng, lossy=True):
         logs.append({"client": "async", "thr": [h], "n": len(h)})
     for h in threaded_session(n, rng):
         logs.append({"client": "threaded", "thr": [h], "n": len(h)})
